@@ -364,6 +364,13 @@ def alloc (x : KTx K) (p : Tag × List Int) : KTx K × Oid :=
 
 def obj (x : KTx K) (o : Oid) : Tag × List Int := (AMap.get x.heap.post o).getD (Tag.set, [])
 
+/-- `idx[word].remove(docid); if not idx[word]: del idx[word]` for a word whose posting object `o`
+holds the document -/
+def unpostOne (x : KTx K) (d : Int) (w : K) (o : Oid) : KTx K :=
+  let s' := LSet.remove (x.obj o).2 d
+  let x := (x.postPut o d ((x.obj o).1, s')).rd (.whole o)
+  if s' = [] then x.fwdErase w else x
+
 /-- the loop `for word in words: idx[word].remove(docid); if not idx[word]: del idx[word]`;
 `false` = `KeyError` (unreachable from a consistent state) -/
 def unpostAll (x : KTx K) (d : Int) : List K → KTx K × Bool
@@ -374,11 +381,7 @@ def unpostAll (x : KTx K) (d : Int) : List K → KTx K × Bool
     | none => (x, false)
     | some o =>
       let x := x.rd (.post o d)
-      if d ∈ (x.obj o).2 then
-        let s' := LSet.remove (x.obj o).2 d
-        let x := (x.postPut o d ((x.obj o).1, s')).rd (.whole o)
-        let x := if s' = [] then x.fwdErase w else x
-        unpostAll x d ws
+      if d ∈ (x.obj o).2 then unpostAll (unpostOne x d w o) d ws
       else (x, false)
 
 /-- `KeywordIndex.unindex_doc` -/
